@@ -1,0 +1,97 @@
+//! Verification hooks. Compiled only with `--cfg warcraft_rs_verif`; with the
+//! guard off this module and every call into it do not exist.
+//!
+//! * `probe_step` counts iterations of an open-addressing probe loop and raises a
+//!   tagged panic when a single call exceeds twice the table length, turning
+//!   "the loop never exits" into a deterministic observation.
+//! * `task_event` records start/end of parallel tasks (sequence number from one
+//!   monotonic counter, thread id, label) so a checker can see which schedules
+//!   actually occurred; `maybe_delay` sleeps a seeded 0..200 µs between tasks to
+//!   diversify schedules. Neither holds a lock while library code runs.
+
+use std::sync::Mutex;
+use std::sync::atomic::{AtomicBool, AtomicU64, Ordering};
+
+/// Call once per probe-loop iteration with a counter local to the call.
+pub fn probe_step(site: &'static str, steps: &mut usize, table_len: usize) {
+    *steps += 1;
+    if *steps > 2 * table_len + 2 {
+        panic!("VERIF-NONTERMINATION site={site} steps={steps} table_len={table_len}");
+    }
+}
+
+/// One recorded task event.
+#[derive(Debug, Clone)]
+pub struct TaskEvent {
+    /// Global sequence number (one monotonic counter for all threads)
+    pub seq: u64,
+    /// Hash of the OS thread id
+    pub thread: u64,
+    /// "start" / "end" / a site-specific kind
+    pub kind: &'static str,
+    /// Task label (file or archive name)
+    pub label: String,
+}
+
+static TRACING: AtomicBool = AtomicBool::new(false);
+static SEQ: AtomicU64 = AtomicU64::new(0);
+static DELAY_SEED: AtomicU64 = AtomicU64::new(0);
+static EVENTS: Mutex<Vec<TaskEvent>> = Mutex::new(Vec::new());
+
+fn thread_tag() -> u64 {
+    use std::hash::{Hash, Hasher};
+    let mut h = std::collections::hash_map::DefaultHasher::new();
+    std::thread::current().id().hash(&mut h);
+    h.finish()
+}
+
+/// Start recording; `delay_seed` != 0 also enables seeded delays.
+pub fn trace_start(delay_seed: u64) {
+    if let Ok(mut e) = EVENTS.lock() {
+        e.clear();
+    }
+    DELAY_SEED.store(delay_seed, Ordering::SeqCst);
+    TRACING.store(true, Ordering::SeqCst);
+}
+
+/// Stop recording and return what was recorded, in sequence order.
+pub fn trace_take() -> Vec<TaskEvent> {
+    TRACING.store(false, Ordering::SeqCst);
+    DELAY_SEED.store(0, Ordering::SeqCst);
+    let mut v = EVENTS.lock().map(|mut e| std::mem::take(&mut *e)).unwrap_or_default();
+    v.sort_by_key(|e| e.seq);
+    v
+}
+
+/// Record a task event (no-op unless tracing).
+pub fn task_event(kind: &'static str, label: &str) {
+    if !TRACING.load(Ordering::Relaxed) {
+        return;
+    }
+    let seq = SEQ.fetch_add(1, Ordering::SeqCst);
+    let ev = TaskEvent {
+        seq,
+        thread: thread_tag(),
+        kind,
+        label: label.to_string(),
+    };
+    if let Ok(mut e) = EVENTS.lock() {
+        e.push(ev);
+    }
+}
+
+/// Sleep 0..200 µs derived from the delay seed and the event counter (no-op unless enabled).
+pub fn maybe_delay() {
+    let seed = DELAY_SEED.load(Ordering::Relaxed);
+    if seed == 0 {
+        return;
+    }
+    let n = SEQ.load(Ordering::Relaxed);
+    let mut z = seed ^ n.wrapping_mul(0x9E37_79B9_7F4A_7C15) ^ thread_tag();
+    z = (z ^ (z >> 30)).wrapping_mul(0xBF58_476D_1CE4_E5B9);
+    z = (z ^ (z >> 27)).wrapping_mul(0x94D0_49BB_1331_11EB);
+    let us = (z ^ (z >> 31)) % 200;
+    if us > 0 {
+        std::thread::sleep(std::time::Duration::from_micros(us));
+    }
+}
